@@ -185,6 +185,21 @@ def check_misuse(ctx, case):
     else:
         raise AssertionError(form)
     ctx.note(["misuse", form, spec], True, classes=[f"misuse-{form}"])
+    if form in ("bare", "no-structure"):
+        # the same on a thread that has never run a jaxtyping check before (its thread-local state is uninitialised)
+        import threading
+
+        box = []
+
+        def fresh():
+            with jaxtyped("context"):
+                box.append(obs.verdict(a3 if form == "bare" else (a3, a4), base if form == "bare" else PyTree[base]))
+
+        th = threading.Thread(target=fresh)
+        th.start()
+        th.join()
+        if box != [dl.ANNERR]:
+            raise Violation("misuse", case, f"misuse form {form} with spec {spec!r} on a fresh thread: {box} instead of AnnotationError")
     if got != dl.ANNERR:
         raise Violation("misuse", case, f"misuse form {form} with spec {spec!r}: {got} instead of AnnotationError")
     v = obs.verdict(np.zeros((3,)), Shaped[np.ndarray, "?vf_probe"])
